@@ -15,7 +15,7 @@ and read with the strict iterator and with one generated non-empty set of tolera
 Non-trivial: some master in U is the last child of a master that is also in U (its End is caused by a higher-level element, an enclosing known-size extent or EOF); distinct by (document bytes).";
 
 pub const ASSUMPTIONS: &[&str] = &[
-    "excluded by construction and counted: subsets that put unknown size on a master whose declared path has a placeholder, or directly before a global element (the inherently ambiguous case the statement excludes)",
+    "excluded by construction and counted: subsets that put unknown size on a master whose declared path has a placeholder where 'sibling' would have to be decided for it (something follows it at its own level, or an element of the identical path / of an ancestor's type lies inside it), or on a master directly before a global element (the inherently ambiguous case the statement excludes)",
 ];
 
 fn set_subset(forest: &mut [Node], mask: u64, widths: &[u8]) {
